@@ -4,6 +4,7 @@ import (
 	"bytes"
 	"context"
 	"fmt"
+	"strings"
 
 	"github.com/bmeg/grip/engine/core"
 	"github.com/bmeg/grip/gdbi"
@@ -175,6 +176,9 @@ func (kgdb *KVInterfaceGDB) BulkAdd(stream <-chan *gdbi.GraphElement) error {
 
 // DelEdge deletes edge with id `key`
 func (kgdb *KVInterfaceGDB) DelEdge(eid string) error {
+	if strings.Contains(eid, "\x00") {
+		return fmt.Errorf("Edge Not Found")
+	}
 	ekeyPrefix := EdgeKeyPrefix(kgdb.graph, eid)
 	var ekey []byte
 	kgdb.kvg.kv.View(func(it kvi.KVIterator) error {
@@ -211,6 +215,9 @@ func (kgdb *KVInterfaceGDB) DelEdge(eid string) error {
 
 // DelVertex deletes vertex with id `key`
 func (kgdb *KVInterfaceGDB) DelVertex(id string) error {
+	if strings.Contains(id, "\x00") {
+		return fmt.Errorf("Vertex Not Found")
+	}
 	vid := VertexKey(kgdb.graph, id)
 	skeyPrefix := SrcEdgePrefix(kgdb.graph, id)
 	dkeyPrefix := DstEdgePrefix(kgdb.graph, id)
